@@ -256,6 +256,27 @@ func methodKey(m *types.Func) string {
 }
 
 func (c *Ctx) findFunc(key string) *ssa.Function {
+	if i := strings.Index(key, "$"); i >= 0 {
+		// a function literal: parent key + $ + ordinal path (relay$1, run$2$1)
+		parent := c.findFunc(key[:i])
+		if parent == nil {
+			return nil
+		}
+		want := parent.Name() + key[i:]
+		var find func(f *ssa.Function) *ssa.Function
+		find = func(f *ssa.Function) *ssa.Function {
+			for _, a := range f.AnonFuncs {
+				if a.Name() == want {
+					return a
+				}
+				if r := find(a); r != nil {
+					return r
+				}
+			}
+			return nil
+		}
+		return find(parent)
+	}
 	parts := strings.Split(key, ".")
 	p := c.byName[parts[0]]
 	if p == nil {
